@@ -68,8 +68,10 @@ class C03(Check):
     def shards(self, tier):
         out = []
         for w in WIDTHS:
-            for eol in ("LF", "CRLF"):
+            for eol in ("LF", "CRLF", "LF+blank"):
                 for buf in BUFFERS:
+                    if eol == "LF+blank" and (w, buf) not in ((3, 2), (10, 11), (4, 1)):
+                        continue  # an empty line between the two records: a few width / buffer combinations
                     out.append(("api", w, eol, buf, tier))
         from mc.checks import c03_cli
 
@@ -111,7 +113,7 @@ class C03(Check):
         ctx.sample({"long": "20 000 / 9 000 residue records, width 60", "eol": eol, "buffer": buf})
 
     def make_index(self, w, eol, buf):
-        data, _ = fm.make_fasta([(n, s, w) for n, s in RECS], b"\r\n" if eol == "CRLF" else b"\n", True)
+        data, _ = fm.make_fasta([(n, s, w) for n, s in RECS], b"\r\n" if eol == "CRLF" else b"\n", True, blank_between=eol.endswith("+blank"))
         # the index is built with the same (small) buffer as the streaming: "all buffer sizes" covers both halves
         idx, _asm = index_fasta_file(fm.MemPath(data), buf)
         fi = FastaIndex(fm.MemPath(data), buf)
